@@ -72,7 +72,7 @@ Definition model_out (c : nat * (list Z * list Z)) : option (list Z) :=
          match rs_retry_after r with Some s => s | None => 0 end;
          opt_code (rs_body_code r)])
         (outcome_of okind code rik nanos w)
-  | 8%nat, [t; a; items; okind; code; rik; nanos; w; signal; comp; lossy] =>
+  | 8%nat, [t; a; items; okind; code; rik; nanos; w; signal; comp; lossy; level; kib] =>
       option_map (fun o =>
         let h := hop (transport_of t) (auth_of a) (Z.to_N items) o in
         [b2z (h_called h)] ++ verdict_obs (h_verdict h) ++ [opt_code (h_err_code h); b2z (h_called h);
@@ -80,6 +80,12 @@ Definition model_out (c : nat * (list Z * list Z)) : option (list Z) :=
               sets LogRecord.event_name / ExponentialHistogramDataPoint.zero_threshold (regression inputs for the
               JSON decoder cases repaired by /repo 3d5efdb0d) *)
            1])
+        (outcome_of okind code rik nanos w)
+  | 10%nat, [t; ph; items; okind; code; rik; nanos; w; signal] =>
+      option_map (fun o =>
+        let h := hop_at (if ph =? 2 then AfterShutdown else if ph =? 1 then InFlightAtShutdown else Running)
+                        (transport_of t) NoAuth (Z.to_N items) o in
+        [b2z (h_called h)] ++ verdict_obs (h_verdict h) ++ [opt_code (h_err_code h); b2z (h_called h); 1])
         (outcome_of okind code rik nanos w)
   | 9%nat, [a; body; okind; code; rik; nanos; w] =>
       option_map (fun o =>
@@ -108,6 +114,10 @@ Definition check_case (c : nat * (list Z * list Z)) : bool :=
           if (rak =? 2) && (mv =? 3) then
             (ov =? 3) && (md - date_slack <=? od) && (od <=? md) && (mc =? oc)
           else zlist_eqb m obs
+      | 10%nat, [t; ph; _; _; _; _; _; _; _], [mc; mv; md; mcode; mn; me], [oc; ov; od; ocode; on; oe] =>
+          (* after the shutdown the HTTP route has no gRPC status at all: the error code is compared on gRPC only *)
+          (mc =? oc) && (mv =? ov) && (md =? od) && (mn =? on) && (me =? oe)
+          && ((mcode =? ocode) || ((ph =? 2) && negb (t =? 0)))
       | 7%nat, _, [mcalled; mst; mrp; mrs; mbc], [ocalled; ost; orp; ors; obc] =>
           (* obc = -3: HEAD request, the response has no body to look at *)
           (mcalled =? ocalled) && (mst =? ost) && (mrp =? orp) && (mrs =? ors) && ((obc =? (-3)) || (mbc =? obc))
